@@ -291,6 +291,26 @@ def run_protocols(F, ck):
                 k2 = 'unmatched:%s:%s~%s:%s:%s:%s' % (proto, x, y, which, t.fn.name, '/'.join(map(str, sig(t))))
                 ck.ob('R04.3', k2, reason is not None, ('reviewed asymmetry: ' + reason) if reason else
                       'conditional %s event %s in %s has no counterpart on the other side (%s vs %s)' % (t.kind, t.method, t.fn.qual, trs[(proto, x)][2].qual, trs[(proto, y)][2].qual), t.loc)
+                if reason is not None:
+                    # the reviewed padding happens exactly when the caller supplies the circuit's size (an Option parameter):
+                    # a padding step that additionally depends on other data is applied for some proofs only, and the
+                    # in-circuit transcript (which always has the padded shape) then diverges for the others
+                    allowed = PADDING_CONDITION[sig(t)]
+                    own = frozenset(a for a in t.fn_param_names() if a in allowed) if hasattr(t, 'fn_param_names') else None
+                    foreign = []
+                    for fr_ in t.ctx:
+                        if fr_[0] != 'if' or not (isinstance(fr_[2], dict) and fr_[2].get('s', '').startswith(t.fn.file)):
+                            continue
+                        for n_ in walk(fr_[2].get('c') or {}):
+                            if n_.get('k') == 'Local' and n_.get('n') not in allowed and n_.get('n') in _param_names(t.fn):
+                                foreign.append(n_['n'])
+                            if n_.get('k') == 'Local' and n_.get('n') not in _param_names(t.fn):
+                                # a local: look at what it is computed from
+                                foreign += [m for m in _local_sources(t.fn, n_) if m not in allowed]
+                    foreign = sorted(set(foreign))
+                    ck.ob('R04.3', k2 + ':condition', not foreign, 'padding applied whenever %s is supplied' % '/'.join(sorted(allowed)) if not foreign else
+                          'the reviewed padding step (%s in %s) now also depends on %s: it is skipped for some proofs, for which the in-circuit transcript - always of the padded shape - no longer matches' %
+                          (t.method, t.fn.qual, ', '.join(foreign)), t.loc)
     # FRI tail of the batch prover against the verifier's fri_challenges
     if 'plonk' not in SIDES:
         return
@@ -468,6 +488,49 @@ def squeeze_counts(F, ck, proto, x, y, a, b, skipped):
               'CHALLENGE COUNT MISMATCH: %s draws %s challenges with %s at %s but its counterpart %s draws %s at %s: the two transcripts diverge from here on' %
               (ta.fn.qual, poly.show(ps[0]), ta.method, ta.loc, tb.fn.qual, poly.show(ps[1]), tb.loc), ta.loc)
     ck.notes.setdefault('R04.3 squeeze counts compared', {})['%s:%s~%s' % (proto, x, y)] = n
+
+
+# which Option parameter may switch each reviewed padding step on (keyed by the event signature)
+PADDING_CONDITION = {
+    # the number of padded steps / coefficients is (size supplied by the caller) - (what the proof has), so the proof part that is
+    # being padded may appear in the condition as well
+    ('obs', 'elem', True): {'max_num_query_steps', 'commit_phase_merkle_caps'},
+    ('sq', 'ext', True): {'max_num_query_steps', 'commit_phase_merkle_caps'},
+    ('obs', 'ext', True): {'final_poly_coeff_len', 'final_poly'},
+}
+
+
+def _param_names(fn):
+    from .facts import pat_binds
+    return {b['n'] for p in fn.params for b in pat_binds(p)}
+
+
+def _local_sources(fn, local, depth=3):
+    """names of the parameters a local is computed from (through plain lets), syntactically"""
+    from . import defrender
+    D = defrender.Defs(fn)
+    out = set()
+    todo = [(local, depth)]
+    pn = _param_names(fn)
+    while todo:
+        n, d = todo.pop()
+        df = D.defs.get(n['id'])
+        if not df or d <= 0:
+            continue
+        kind, x = df
+        if kind == 'param':
+            out.add(n['n'])
+            continue
+        node = x if isinstance(x, dict) else (x[0] if isinstance(x, tuple) else None)
+        if not isinstance(node, dict):
+            continue
+        for y in walk(node):
+            if y.get('k') == 'Local':
+                if y['n'] in pn and D.defs.get(y['id'], ('', ''))[0] == 'param':
+                    out.add(y['n'])
+                else:
+                    todo.append((y, d - 1))
+    return out
 
 
 def field_ops(fn, field):
